@@ -4,7 +4,7 @@
 From Coq Require Import List NArith ZArith Bool Arith Lia.
 Import ListNotations.
 Require Import Aurora.Consts Aurora.C03.Ref Aurora.C03.Model Aurora.C03.Util Aurora.C03.Inv
-               Aurora.C03.Final Aurora.C03.Term Aurora.C03.PresUser Aurora.C03.Pool Aurora.C03.Seq Aurora.C03.Toy.
+               Aurora.C03.Final Aurora.C03.Term Aurora.C03.PresUser Aurora.C03.Pool Aurora.C03.Seq Aurora.C03.Toy Aurora.C03.Alias.
 
 (** ---- constants: bmtpool's configuration is the tree with D = 12 (8192 segments, 256 KiB) ---- *)
 Definition realD : nat := 12.
@@ -153,6 +153,48 @@ Proof.
   rewrite E1, E2. cbn. unfold the_hash. now rewrite Ec.
 Qed.
 Print Assumptions C03_stale_buffer.
+
+(** ownership of the bytes.  The caller feeds the hasher from ONE scratch buffer: [CFill g]
+    overwrites it with arbitrary bytes g, [CWrite n] is Write(buffer[:n]); Hash follows.  Write
+    copies into the tree buffer before it starts workers and workers read the tree buffer only
+    ([xstep false] = the base model's steps; a [CFill] never reaches the hasher state), so for
+    ALL schedules and ALL later contents of the caller's buffer the result is the reference hash
+    of the bytes handed over at the time of each Write call ([writes_of]); and at every moment
+    the writes still pending are slices of the caller's CURRENT buffer ([synced]) *)
+Theorem C03_caller_may_reuse_buffer : forall (H HF : list N -> list N) D buf0 ns0 hdr prog cb0 sched,
+  tree_ok D buf0 ns0 ->
+  let x := xrun H HF D false (xinit buf0 ns0 hdr prog cb0) sched in
+  synced x /\
+  (out (xs x) = None \/ out (xs x) = Some (bmt_hash H HF D (hdr_span hdr) (concat (writes_of prog cb0)))) /\
+  (quiescent (xs x) ->
+     out (xs x) = Some (bmt_hash H HF D (hdr_span hdr) (concat (writes_of prog cb0))) /\ tree_ok D (buf (xs x)) (ns (xs x))).
+Proof.
+  intros H HF D buf0 ns0 hdr prog cb0 sched Hok x.
+  split; [apply xrun_synced, xinit_synced|].
+  unfold x. rewrite (proj1 (xrun_faithful H HF D sched _)). cbn [xinit xs xprog].
+  split.
+  - exact (proj2 (C03_conc_safety H HF D buf0 ns0 hdr _ _ Hok)).
+  - exact (C03_conc_result H HF D buf0 ns0 hdr _ _ Hok).
+Qed.
+Print Assumptions C03_caller_may_reuse_buffer.
+
+(** the variant in which a section worker hashes a sub-slice of the CALLER's slice is wrong:
+    witness (toy hash, two sections): write the buffer, refill it, write again; the first worker
+    runs after the refill.  The same program and schedule under the code as it is give the
+    reference hash. *)
+Theorem C03_worker_reads_caller_slice_refuted :
+  exists (H HF : list N -> list N) D buf0 ns0 hdr prog cb0 sched,
+    tree_ok D buf0 ns0 /\
+    let x := xrun H HF D true (xinit buf0 ns0 hdr prog cb0) sched in
+    quiescentb (xs x) = true /\
+    out (xs x) <> Some (bmt_hash H HF D (hdr_span hdr) (concat (writes_of prog cb0))) /\
+    out (xs (xrun H HF D false (xinit buf0 ns0 hdr prog cb0) sched))
+      = Some (bmt_hash H HF D (hdr_span hdr) (concat (writes_of prog cb0))).
+Proof.
+  exists toy, toy, 1, (fresh_buf 1), fresh_nodes, [1;2;3;4;5;6;7;8]%N, alias_prog, (@nil N), alias_sched.
+  split; [split; [reflexivity | intros; reflexivity]|]. exact alias_variant_wrong.
+Qed.
+Print Assumptions C03_worker_reads_caller_slice_refuted.
 
 (** trees handed from user to user through the pool channel *)
 Theorem C03_pool_reuse : forall (H HF : list N -> list N) D fuel us p,
